@@ -11,7 +11,7 @@ COMMON_TRUSTED = [
 RTPS_SHIM_FILES = [
     "src/rtps/reader.rs", "src/rtps/writer.rs", "src/rtps/rtps_writer_proxy.rs",
     "src/rtps/rtps_reader_proxy.rs", "src/rtps/fragment_assembler.rs",
-    "src/rtps/message_receiver.rs", "src/rtps/dp_event_loop.rs",
+    "src/rtps/message_receiver.rs",
     "src/structure/dds_cache.rs", "src/structure/cache_change.rs",
     "src/dds/with_key/simpledatareader.rs", "src/dds/with_key/datasample_cache.rs",
     "src/dds/with_key/datareader.rs", "src/dds/with_key/datawriter.rs",
@@ -61,6 +61,71 @@ PROPS["C10"] = {
                    "sites in reader.rs / writer.rs are covered by C11's object harnesses."),
     "level_note": ("Trusted: Kani/CBMC/CaDiCaL, the reference table of DDS 1.4 2.2.3 written in the harness. "
                    "Counterexamples are replayed natively through the public function before being reported."),
+}
+
+# ------------------------------------------------------------------------------- C01
+_wp = "rtps::rtps_writer_proxy::verif_harness_wproxy"
+PROPS["C01"] = {
+    "title": "reliable reader: in order, once, no holes, bytes intact",
+    "design_ref": "DESIGN.md section 3, C01",
+    "inject": {"src/rtps/rtps_writer_proxy.rs": ["wproxy"]},
+    "shim_files": RTPS_SHIM_FILES + ["src/structure/sequence_number.rs", "src/rtps/message.rs"],
+    "cap": {"quick": 4, "thorough": 6},
+    "sn_window": {"quick": 4, "thorough": 5},
+    "harnesses": [
+        H("c01_proxy_inductive_o0", _wp, "one step (DATA/GAP/GAP-range/HEARTBEAT.first, any args) from ANY valid proxy state: known set == pre ∪ op, frontier monotone and == lowest unknown SN, invariant kept", "window origin 0, width W, CAP live entries"),
+        H("c01_proxy_inductive_o31", _wp, "same, window across 2^31", "origin 2^31-4"),
+        H("c01_proxy_inductive_o32", _wp, "same, window across 2^32 (high/low word boundary of the wire format)", "origin 2^32-4"),
+        H("c01_proxy_inductive_o62", _wp, "same, near the top of the i64 range", "origin 2^62"),
+        H("c01_proxy_sequence_k3", _wp, "3 arbitrary operations from the initial proxy", "k=3, window W"),
+        H("c01_proxy_sequence_k5", _wp, "5 arbitrary operations from the initial proxy", "k=5, window W", tier="thorough", timeout=2400),
+    ],
+    "bounds": {"sn_window": "4 (quick) / 5 (thorough)", "CAP": "4 / 6 live map entries", "unwind": 11,
+               "window_origins": [0, "2^31-4", "2^32-4", "2^62"]},
+    "outside": ["window origins outside the grid", "more than CAP simultaneously out-of-order SNs per writer"],
+    "assumptions": ["std BTreeMap replaced by the array-backed shim under cfg(kani) (validated by SELFTEST; counterexamples replayed on std containers)"],
+    "trusted": ["/verif/shim/collections.rs (BTreeMap/BTreeSet stand-in)"],
+    "explanation": "C01 kernel tier: RtpsWriterProxy state machine.",
+    "technique": "Kani/CBMC bounded symbolic model checking: inductive step from an arbitrary valid RtpsWriterProxy state + operation sequences from the initial state",
+    "level_text": "SAT-solver verdict over all operation arguments and all valid pre-states inside the stated window/CAP bounds.",
+    "level_note": "Trusted: Kani/CBMC/CaDiCaL, the container shim (validated separately), the representation invariant stated in the harness.",
+}
+
+# ------------------------------------------------------------------------------- C03
+_rd = "rtps::reader::verif_harness_reader"
+ENV_INJECT = {
+    "src/network/udp_sender.rs": ["env_udp"],
+    "src/mio_source.rs": ["env_mio"],
+    "src/structure/time.rs": ["env_time"],
+}
+ENV_STUBS = [
+    "stub: Timestamp::now -> strictly increasing counter (TopicCache documents that it assumes unique receive timestamps)",
+    "stub: std::time::Instant::now -> constant (only the mio-extras Timer asks)",
+    "stub: mio_source::make_poll_channel / PollEventSender::send / PollEventSource::drain -> dummy descriptors, no-ops",
+    "stub: std::fmt::format -> empty String",
+    "stub: Reader::encode_and_send -> records the Message value built by the real code (serialisation is C14)",
+    "environment: mio-extras Timer built with 4 slots instead of 256; UDPSender around an unused descriptor",
+]
+PROPS["C03"] = {
+    "title": "ACKNACKs are truthful",
+    "design_ref": "DESIGN.md section 3, C03",
+    "inject": dict(ENV_INJECT, **{"src/rtps/reader.rs": ["reader"], "src/rtps/rtps_writer_proxy.rs": ["wproxy"],
+                                  "src/structure/sequence_number.rs": ["seqnum"]}),
+    "shim_files": RTPS_SHIM_FILES + ["src/structure/sequence_number.rs", "src/rtps/message.rs"],
+    "cap": {"quick": 4, "thorough": 6},
+    "sn_window": {"quick": 4, "thorough": 5},
+    "harnesses": [
+        H("c03_from_base_and_set_two", "structure::sequence_number::verif_harness_seqnum", "from_base_and_set(b,{b+x,b+y}) == set ∩ [b,b+256)", "x<y in 0..400, b in 1..2^40"),
+        H("c03_reader_hb_fresh", _rd, "fresh matched writer, HEARTBEAT(first,last,final) symbolic: answered iff required, base <= first, requested SNs inside [first,last], lowest missing requested", "first in 1..4, last in first-1..4"),
+    ],
+    "bounds": {"unwind": 14},
+    "outside": [],
+    "assumptions": ENV_STUBS,
+    "trusted": ["/verif/shim/collections.rs", "/verif/env, /verif/harness/env_*.rs (environment stand-ins)"],
+    "explanation": "C03: Reader::handle_heartbeat_msg on the real Reader object.",
+    "technique": "Kani/CBMC bounded symbolic model checking of the real Reader object (handle_heartbeat_msg and friends) with environment stubs",
+    "level_text": "SAT-solver verdict over all HEARTBEAT/DATA/GAP arguments inside the stated window.",
+    "level_note": "Trusted: Kani/CBMC/CaDiCaL, container shim, environment stubs listed in evidence.",
 }
 
 # ------------------------------------------------------------------------- not applicable
